@@ -12,6 +12,14 @@ import sys
 tree, name = sys.argv[1], sys.argv[2]
 base = os.path.join(os.path.dirname(os.path.dirname(os.path.abspath(__file__))), 'pmstatic', 'battery_files', name)
 origin = {}
+import subprocess
+# only the files the refactoring itself touched (the scratch tree may be based on an older commit of /repo than the current one)
+touched = None
+try:
+    out = subprocess.run(['git', '-C', tree, 'diff', '--name-only', '--', 'src'], stdout=subprocess.PIPE, text=True, check=True).stdout.split()
+    touched = set(out) if out else None
+except Exception:
+    touched = None
 for root, _dirs, files in os.walk(os.path.join(tree, 'src')):
     for f in files:
         if not f.endswith('.py'):
@@ -21,7 +29,7 @@ for root, _dirs, files in os.walk(os.path.join(tree, 'src')):
         new = open(p, encoding='utf-8').read()
         cur_p = os.path.join('/repo', rel)
         cur = open(cur_p, encoding='utf-8').read() if os.path.exists(cur_p) else None
-        if cur is None or cur == new:
+        if cur is None or cur == new or (touched is not None and rel not in touched):
             continue
         origin[rel] = hashlib.sha256(cur.encode()).hexdigest()
         out = os.path.join(base, rel + '.txt')
